@@ -6,7 +6,6 @@ import (
 	"kvassverif/core"
 )
 
-
 var realNode = []string{"sidecar.TargetsManager (incl. store file on a real scratch directory)", "sidecar.Service (gin routes)", "sidecar.Proxy", "sidecar.Injector", "prom.ConfigManager", "scrape.Manager / Scraper / VictoriaMetrics stream parser / StatisticSeries", "target.ScrapeStatus"}
 var stubNode = []string{"Prometheus (reload callback counter + head-series value)", "scrape targets (in-memory http.RoundTripper with generated payloads and injected failures)", "coordinator (the harness issues the API calls)"}
 
@@ -14,9 +13,9 @@ func init() {
 	core.Register(&core.Spec{
 		ID: "C16", Engine: "node", Run: c16Run,
 		QuickRuns: 4000, ThorRuns: 300000, QuickCap: 60 * time.Second, ThorCap: 12 * time.Minute,
-		Rule: "a run generates a configuration tree from the catalogue, renders it, and checks: same text -> same hash in two manager instances, in a child OS process and as reported by a real sidecar's runtimeinfo after a push; 1-3 cosmetic variants (indentation, comments, key order, quoting, flow style, document start, trailing blanks, external-label changes) -> same hash; 1-4 single-setting semantic edits (every scalar kind incl. regexes and secrets, SD options, list reorder) -> different hash; a case is (cosmetic kind) or (edit kind x field path)",
-		Real: []string{"prom.ConfigManager.ReloadFromRaw (config.Load + hashstructure)", "sidecar.Service runtimeinfo", "a separate OS process"},
-		Stub: []string{"none for hashing"},
+		Rule:   "a run generates a configuration tree from the catalogue, renders it, and checks: same text -> same hash in two manager instances, in a child OS process and as reported by a real sidecar's runtimeinfo after a push; 1-3 cosmetic variants (indentation, comments, key order, quoting, flow style, document start, trailing blanks, external-label changes) -> same hash; 1-4 single-setting semantic edits (every scalar kind incl. regexes and secrets, SD options, list reorder) -> different hash; a case is (cosmetic kind) or (edit kind x field path)",
+		Real:   []string{"prom.ConfigManager.ReloadFromRaw (config.Load + hashstructure)", "sidecar.Service runtimeinfo", "a separate OS process"},
+		Stub:   []string{"none for hashing"},
 		Assume: []string{"edits are drawn from per-field value domains that exclude textually different but semantically equal values (e.g. 1m vs 60s)", "whether the coordinator then treats shards as in sync over cycles is exercised by the world engine"},
 	})
 	core.Register(&core.Spec{
@@ -25,15 +24,15 @@ func init() {
 		Rule: "a run starts a real sidecar (push or file mode, self-monitoring on/off) and applies 2-6 operations in any order - a new configuration composed from a catalogue (global, rule_files, alerting with auth, 1-4 jobs with every auth kind / limits / params / honor flags / relabel and metric-relabel programs / static, file, dns, kubernetes, http, consul SD, remote write/read with basic-auth, bearer token, authorization, oauth2, sigv4; every secret a unique token; drawn YAML style) or a new assignment (jobs without targets, targets of a non-existent job, both states, odd label names, params) - and after each one loads the generated file with config.Load and compares it field-wise with the latest configuration x latest assignment; a case is (jobs, remote-write entries, alerting?, jobs with targets, self-monitor, kind of last operation)",
 		Real: realNode, Stub: stubNode,
 		SchedLabels: []string{"op", "scrape_outcome", "fail_kind", "fail_offset", "update_mode", "prom_reload_fails", "overlap_flip", "kind", "break_offset", "timeout_offset", "chunking", "short_writes", "chunk", "cut_point", "child_cut_point", "config_change", "op_is_config"},
-		Assume: []string{"comparison is on structs loaded by the vendored Prometheus library (config.Load) for both the original and the generated text"},
+		Assume:      []string{"comparison is on structs loaded by the vendored Prometheus library (config.Load) for both the original and the generated text"},
 	})
 	core.Register(&core.Spec{
 		ID: "C09", Engine: "node", Run: c09Run,
 		QuickRuns: 120, ThorRuns: 20000, QuickCap: 70 * time.Second, ThorCap: 12 * time.Minute,
-		Rule: "a run draws two consecutive assignments A -> B (empty / one / many / large >64 KiB store; both states; label values needing JSON escaping; optionally an old-format targets.json as starting point), checks clean restarts, then injects store faults into the real TargetsManager's persisting of B: the store write cut at byte N by RLIMIT_FSIZE for every N of small stores (complete sub-sweep) or drawn N of large ones, the same cut applied to the write Load performs at start, the same update in a separate OS process with a cut, and that process SIGKILLed by strace on entry to the K-th syscall touching the store file for every K; after each fault a fresh start must succeed and resume A or B, and a second start must agree; a case is (kind of A) x (kind of B) x old-format?",
-		Real: []string{"sidecar.TargetsManager (Load, UpdateTargets, store file on a real directory)", "kernel file system", "a separate OS process for the child variant"},
-		Stub: []string{"no update callbacks are registered (the injector's own file is not part of this property)"},
-		Assume: []string{"no power-loss model: kill, partial write and full disk are injected at the syscall boundary; un-synced page loss is not", "the idle-since instant of B is compared up to the real-time difference between the faulted process and its fault-free twin"},
+		Rule:    "a run draws two consecutive assignments A -> B (empty / one / many / large >64 KiB store; both states; label values needing JSON escaping; optionally an old-format targets.json as starting point), checks clean restarts, then injects store faults into the real TargetsManager's persisting of B: the store write cut at byte N by RLIMIT_FSIZE for every N of small stores (complete sub-sweep) or drawn N of large ones, the same cut applied to the write Load performs at start, the same update in a separate OS process with a cut, and that process SIGKILLed by strace on entry to the K-th syscall touching the store file for every K; after each fault a fresh start must succeed and resume A or B, and a second start must agree; a case is (kind of A) x (kind of B) x old-format?",
+		Real:    []string{"sidecar.TargetsManager (Load, UpdateTargets, store file on a real directory)", "kernel file system", "a separate OS process for the child variant"},
+		Stub:    []string{"no update callbacks are registered (the injector's own file is not part of this property)"},
+		Assume:  []string{"no power-loss model: kill, partial write and full disk are injected at the syscall boundary; un-synced page loss is not", "the idle-since instant of B is compared up to the real-time difference between the faulted process and its fault-free twin"},
 		Workers: 16, SelfCheckRuns: 6,
 	})
 	core.Register(&core.Spec{
@@ -42,7 +41,7 @@ func init() {
 		Rule: "a run performs 1-6 successful scrapes through the real proxy with a drawn payload class (generated samples, empty, one line without newline, comment/blank/HELP/TYPE lines, lines the statistics parser rejects, CRLF, one line of up to 262000 bytes, 1-6 MiB), identity or gzip, drawn read-chunk pattern on the target side (1 byte ... 1 MiB) and drawn short-write pattern on the Prometheus side (a ResponseWriter accepting 1..n bytes per call), or through a real net/http server+client over net.Pipe; assigned and unassigned hashes; a case is (payload class) x (assigned?) x gzip x (writer | net/http)",
 		Real: append([]string{"net/http server and client over net.Pipe (a quarter of the scrapes)"}, realNode...), Stub: stubNode,
 		SchedLabels: []string{"op", "scrape_outcome", "fail_kind", "fail_offset", "update_mode", "prom_reload_fails", "overlap_flip", "kind", "break_offset", "timeout_offset", "chunking", "short_writes", "chunk", "cut_point", "child_cut_point", "config_change", "op_is_config"},
-		Assume: []string{"lines stay below the VictoriaMetrics stream parser's 256 KiB line limit, as the statement requires"},
+		Assume:      []string{"lines stay below the VictoriaMetrics stream parser's 256 KiB line limit, as the statement requires"},
 	})
 	core.Register(&core.Spec{
 		ID: "C13", Engine: "node", Run: c13Run,
@@ -50,7 +49,7 @@ func init() {
 		Rule: "a run drives 2-10 scrapes (plus complete sweeps over every break offset of a small payload) through a real net/http server serving the real Proxy over net.Pipe connections to a real http.Client configured with the proxy URL, all inside one synctest bubble; per scrape a drawn target (assigned normal / assigned in_transfer / unassigned), payload, gzip, chunking and failure stage (connect, non-200 status, timeout on the fake clock, body break at a drawn offset, corrupted gzip stream, administratively stopped); a case is (failure stage class) x (assigned?) x gzip",
 		Real: append([]string{"net/http server and client over net.Pipe"}, realNode...), Stub: stubNode,
 		SchedLabels: []string{"op", "scrape_outcome", "fail_kind", "fail_offset", "update_mode", "prom_reload_fails", "overlap_flip", "kind", "break_offset", "timeout_offset", "chunking", "short_writes", "chunk", "cut_point", "child_cut_point", "config_change", "op_is_config"},
-		Assume: []string{"the Prometheus-side client waits longer (15 s) than the job's scrape_timeout (10 s), so a time-out is the proxy's verdict, not the client's"},
+		Assume:      []string{"the Prometheus-side client waits longer (15 s) than the job's scrape_timeout (10 s), so a time-out is the proxy's verdict, not the client's"},
 	})
 	core.Register(&core.Spec{
 		ID: "C14", Engine: "node",
@@ -59,7 +58,7 @@ func init() {
 		Rule: "a run is a drawn sequence of 4-40 operations on one real sidecar, mostly scrapes through the real proxy of payloads built from a drawn list of (metric name, label set) samples (so total and kept counts under the job's metric relabel rules are known by construction; kept = Prometheus' own relabel.Process per sample), with failures, several targets and jobs, updates and restarts; after every operation /status/, /runtimeinfo/ and /samples/?with_metrics_detail are compared with the model (series = floor(mean of last <=3 successful kept counts), total = last success, process = sum of totals, head = max(prometheus head, sum of series)); a case is (operation kinds mixed) x (final entry classes) x idle?",
 		Real: realNode, Stub: stubNode,
 		SchedLabels: []string{"op", "scrape_outcome", "fail_kind", "fail_offset", "update_mode", "prom_reload_fails", "overlap_flip", "kind", "break_offset", "timeout_offset", "chunking", "short_writes", "chunk", "cut_point", "child_cut_point", "config_change", "op_is_config"},
-		Assume: []string{"after a failed scrape the per-scrape statistics of that target are unspecified and not compared"},
+		Assume:      []string{"after a failed scrape the per-scrape statistics of that target are unspecified and not compared"},
 	})
 	core.Register(&core.Spec{
 		ID: "C10", Engine: "node",
@@ -68,6 +67,6 @@ func init() {
 		Rule: "a run is a drawn sequence of 3-30 operations on one real sidecar (target updates over 6 hashes x 3 jobs with adds/removals/state flips/repeats/empty/job moves, scrapes with drawn outcome through the real proxy, restarts from the store directory, fake-clock advances) with the real GET status / runtimeinfo answers compared with a reference model after every operation; a case is (set of operation kinds mixed) x (multiset of final entry classes state/health/scrape-class) x idle?; trivial = fewer than two kinds of operation",
 		Real: realNode, Stub: stubNode,
 		SchedLabels: []string{"op", "scrape_outcome", "fail_kind", "fail_offset", "update_mode", "prom_reload_fails", "overlap_flip", "kind", "break_offset", "timeout_offset", "chunking", "short_writes", "chunk", "cut_point", "child_cut_point", "config_change", "op_is_config"},
-		Assume: []string{"a request never names one hash twice with different states (order of two states for one hash in one request is left open by the statement)"},
+		Assume:      []string{"a request never names one hash twice with different states (order of two states for one hash in one request is left open by the statement)"},
 	})
 }
